@@ -387,6 +387,24 @@ func newC13Recv(seed int64, v int, quick bool, thin int) *c13Recv {
 	r := B.Receive(q) // B: AWAITING_DHKEY
 	rec("commit", r.Out)
 	snap("awaiting-dhkey", B, nil)
+	// a conversation without long-term keys that has been talked into an exchange (an offer refused once is accepted
+	// the second time; a D-H Commit is answered at once): every later step must fail cleanly, not crash
+	{
+		n1 := verifClone(nk)
+		n1.Receive(q)
+		n1.Receive(q)
+		snap("nokeys-after-two-queries", n1, nil)
+		n2 := verifClone(nk)
+		k := n2.Receive(r.Out[0]) // B's D-H Commit
+		snap("nokeys-answered-a-commit", n2, nil)
+		if len(k.Out) > 0 {
+			bc := verifClone(B)
+			rs := bc.Receive(k.Out[0])
+			for _, o := range rs.Out {
+				p.extra = append(p.extra, c13MutCase{"nokeys", o, "the Reveal Signature message that answers a key-less conversation's D-H Key"})
+			}
+		}
+	}
 	r2 := A.Receive(r.Out[0]) // A: AWAITING_REVEALSIG
 	rec("dhkey", r2.Out)
 	snap("awaiting-revealsig", A, nil)
@@ -542,6 +560,20 @@ func newC13Recv(seed int64, v int, quick bool, thin int) *c13Recv {
 		for _, nn := range nums {
 			m := fmt.Sprintf("?OTR,%s,%s,payload,", k, nn)
 			add([]byte(m), "fragment header "+m)
+		}
+	}
+	// a fragment train whose reassembled content is again OTR-shaped (a fragment, a query, an error, an encoded message)
+	{
+		inner := []string{"?OTR|aaaa", "?OTR|aaaaaaaa|bbbbbbbb,00001,00001,x,", "?OTR,1,1,x,", "?OTR,1,2,x,", "?OTR,", "?OTR|", "?OTR:AAMD", "?OTR:AAMD.", "?OTR?", "?OTRv23?", "?OTR Error: x", "?OTR"}
+		pres := []string{"?OTR", "?OTR|00000100|00000000", "?OTR|00000100|00000100"}
+		if len(fr.Out) > 1 {
+			pres = append(pres, string(fr.Out[0][:bytes.IndexByte(fr.Out[0], ',')]))
+		}
+		for _, pre := range pres {
+			for _, in := range inner {
+				p.extra = append(p.extra, c13MutCase{"nested", []byte(fmt.Sprintf("%s,00001,00001,%s,", pre, in)), fmt.Sprintf("single-piece train %s carrying %q", pre, in)})
+				p.extra = append(p.extra, c13MutCase{"nested", []byte(fmt.Sprintf("%s,1,1,%s,", pre, in)), fmt.Sprintf("single-piece train %s (short counters) carrying %q", pre, in)})
+			}
 		}
 	}
 	for _, x := range p.extra {
@@ -1201,7 +1233,7 @@ func init() {
 			return fs
 		},
 		Run: func(r *verifReport) {
-			r.Rule = "exhaustive bounded input enumeration, every call under recover with heap allocation measured (bound 1 MiB + 4096·len): (bytes) all byte strings ≤ 6 over {00,01,7f,80,ff} into every binary parser; (sexp) all strings ≤ 7 over ( ) \" # a F space into the s-expression and key-file readers (also behind valid prefixes); (mut) every truncation, single deletion and word/char substitution of valid key and MPI serialisations and of a libotr key file; (recv) 16 conversation states × {every raw and base64 truncation and length-word substitution of every genuine message kind, ?OTR marker variants ≤ 9 chars, fragment header variants, sizeable pieces continuing a fragment train whose announced total is 65535, authenticated-but-malicious TLV payloads incl. every ordered pair (thorough: triple) of the ten TLV kinds in one message} into Receive, followed by a usability probe (End, fresh exchange, text both ways) whenever the state changed; (rand) every index k at which the k-th read of Conversation.Rand fails or is short, then usability with a healed source. Non-trivial = accepted by a parser / changed state or produced an error or event"
+			r.Rule = "exhaustive bounded input enumeration, every call under recover with heap allocation measured (bound 1 MiB + 4096·len): (bytes) all byte strings ≤ 6 over {00,01,7f,80,ff} into every binary parser; (sexp) all strings ≤ 7 over ( ) \" # a F space into the s-expression and key-file readers (also behind valid prefixes); (mut) every truncation, single deletion and word/char substitution of valid key and MPI serialisations and of a libotr key file; (recv) 18 conversation states (two of them key-less conversations talked into an exchange) × {every raw and base64 truncation and length-word substitution of every genuine message kind, ?OTR marker variants ≤ 9 chars, fragment header variants, sizeable pieces continuing a fragment train whose announced total is 65535, single-piece trains whose content is again OTR-shaped (fragment, query, error, encoded message), authenticated-but-malicious TLV payloads incl. every ordered pair (thorough: triple) of the ten TLV kinds in one message} into Receive, followed by a usability probe (End, fresh exchange, text both ways) whenever the state changed; (rand) every index k at which the k-th read of Conversation.Rand fails or is short, then usability with a healed source. Non-trivial = accepted by a parser / changed state or produced an error or event"
 			r.Assumptions = []string{"workers run with RLIMIT_AS = 6 GiB; a worker that dies or stalls > 180 s is isolated to the single case and confirmed on two further isolated runs before it is reported", "allocation is read from runtime/metrics /gc/heap/allocs:bytes around each call"}
 			for _, part := range []string{"bytes", "sexp", "mut", "recv3", "recv2", "rand"} {
 				p := c13BuildPart(part, r.Seed, r.Tier)
